@@ -108,6 +108,8 @@ impl OsuGradualDifficulty {
             &scaling_factor,
             osu_objects.iter_mut(),
         );
+        #[cfg(rosu_pp_verif)]
+        crate::verif::view_probe::report_slice(1, 0, &diff_objects);
 
         let skills = OsuSkills::new(mods, &scaling_factor, &map_attrs, time_preempt);
         let diff_objects = extend_lifetime(diff_objects.into_boxed_slice());
